@@ -409,6 +409,35 @@ def immut_case(rng, a):
         v2.decode(0)
         record("variant2.genotypes", lambda: v2.genotypes)
         record("variant.copy", lambda: v2.copy().genotypes)
+    # --- every public method of TreeSequence / Tree / Variant that can be called with benign arguments (signatures discovered from the
+    # implementation, defaults from the C09 harness): whatever it returns, the tree sequence stays the same and returned arrays are safe
+    import inspect
+    from harness.props import c09
+    objs = dict(TreeSequence=ts, Tree=ts.first(sample_lists=True))
+    if ts.num_sites:
+        vv = tskit.Variant(ts)
+        vv.decode(0)
+        objs["Variant"] = vv
+    auto = []
+    for cn, obj in objs.items():
+        for n, m in inspect.getmembers(type(obj), predicate=inspect.isfunction):
+            if n.startswith("_") or n in c09.SKIP_METHODS or n in ("dump", "dump_text"):
+                continue
+            try:
+                params = list(inspect.signature(m).parameters.values())[1:]
+                kw = c09.default_args(ts, cn, obj, params, S, n)
+            except Exception:
+                kw = None
+            if kw is not None:
+                auto.append((cn, n, kw))
+    rng.shuffle(auto)
+    for cn, n, kw in auto[:60]:
+        def fn(cn=cn, n=n, kw=kw):
+            r = getattr(objs[cn], n)(**kw)
+            if inspect.isgenerator(r) or hasattr(r, "__next__"):
+                r = [x for _, x in zip(range(20), r)]
+            return r
+        record("auto:%s.%s" % (cn, n), fn)
     return dict(digest0=d0, events=events, ts=a)
 
 
